@@ -165,9 +165,23 @@ Definition action_shape (sk : fn_skel) : bool :=
   && negb (existsb s_has_other (sk_body sk)).
 
 (** the dispatch: [if (0 == strlen(msg)) return ...;] then a single return of the registry dispatch *)
+(** "the message (parameter 0) is empty": its length is 0, or its first byte is the terminator *)
+Definition first_byte_of_param0 (e : sexpr) : bool :=
+  match e with
+  | XIndex (XParam 0) (XInt 0%Z) => true
+  | XDeref (XParam 0) => true
+  | _ => false
+  end.
+Definition is_empty_test (e : sexpr) : bool :=
+  match e with
+  | XOp op [XInt 0%Z; x] => String.eqb op "==" && first_byte_of_param0 x
+  | XOp op [x] => String.eqb op "!" && first_byte_of_param0 x
+  | _ => false
+  end.
+
 Definition dispatch_shape (sk : fn_skel) : bool :=
   match sk_body sk with
   | [SIf cnd [SReturn (Some r0)] []; SReturn (Some (XCall "snoopy_outputregistry_dispatch" [XParam 0]))] =>
-    expr_mentions_call "strlen" cnd && match ecalls r0 with [] => true | _ => false end
+    (expr_mentions_call "strlen" cnd || is_empty_test cnd) && match ecalls r0 with [] => true | _ => false end
   | _ => false
   end.
